@@ -1,9 +1,14 @@
 #!/bin/sh
-# usage: selftest/run.sh <property> <patch-file>   - apply to /repo, run quick check, always revert
+# usage: selftest/run.sh <property> <patch-file> [tier]  - apply to /repo, run the check, always revert.
+# The evidence file and replay files written by the run describe the PATCHED tree: the committed evidence file is
+# put back afterwards (evidence files under version control are written by checks on the unchanged tree only).
 set -u
 P=$1; F=$(readlink -f "$2")
 cd /repo && git apply "$F" || { echo "patch does not apply"; exit 3; }
-cd /verif && ./check "$P" --tier ${3:-quick}; rc=$?
+cd /verif
+[ -f evidence/$P.json ] && cp evidence/$P.json .build/evidence_$P.keep
+./check "$P" --tier ${3:-quick}; rc=$?
+[ -f .build/evidence_$P.keep ] && mv .build/evidence_$P.keep evidence/$P.json
 git -C /repo checkout -- . ; git -C /repo clean -fdq -- . 2>/dev/null
 echo "rc=$rc"
 exit $rc
